@@ -615,6 +615,13 @@ def step (toks : List String) : String :=
     match r.2.1 with
     | some k => s!"refused@{k}"
     | none => "accepted"
+  | "cons" :: toks =>
+    -- periodic world lines of the final configurations of a ladder: `<state> <slots>` per replica
+    let rec go : List String → List Bool
+      | st :: sl :: rest =>
+        decide (Consistent { state := parseBits st, slots := parseSlots sl }) :: go rest
+      | _ => []
+    showBits (go toks)
   | ["hist", _k, _n, t, sf, mf] =>
     -- cadence of the drivers (C17): a tempering step at every multiple of `sf`, a sample at every
     -- multiple of `mf`, up to `t`
